@@ -77,7 +77,7 @@ SPECS = {
           "Oracle: reference encoder/decoder internal/ref/prefix.go (count, order, path id, bit length, leading address bits; failure NOTIFICATION (3,10)/(3,0)/(3,5); closure not run on failure). "
           "distinct_nontrivial = distinct (entry point, verdict, list size / next-hop length, flags, length class) cells.",
   "exhaustive_note": "families single, mpreach (next-hop length octet), mpreachflags and nexthops enumerate their stated spaces completely",
-  "assumptions": ["reference decoder internal/ref/prefix.go is the trusted base; address bits beyond the prefix length are not compared (the statement speaks of address bits of the prefix)"],
+  "assumptions": ["reference decoder internal/ref/prefix.go is the trusted base; inside the last encoded octet the bits beyond the prefix length may be verbatim or masked; octets that were never on the wire must be zero"],
  },
 
  "C02": {
